@@ -74,6 +74,7 @@ const (
 	dgHWPrefix   // the first five octets of the client's address (hlen 5)
 	dgHWExtended // the client's address followed by two more octets (hlen 8)
 	dgHWLong     // the client's address padded to 16 octets (hlen 16)
+	dgReadError  // not a datagram: the socket's read reports an error (once) while the client is open
 )
 
 // foreign reports whether kind is one of the "other hardware address" kinds.
